@@ -70,6 +70,11 @@ func checkFn(c fnCase) evid.Outcome {
 				return evid.Fail("EncryptFOpts(aFCntDown=%v uplink=%v fcnt=%#x data=%x) called right after (aFCntDown=%v uplink=%v fcnt=%#x) gives %x (err %v), specification gives %x", v.a, v.up, v.fcnt, []byte(c.Data), c.AFCntDown, c.Uplink, c.FCnt, got, err, w)
 			}
 		}
+		if v := inArena(c.Data, want, func(b []byte) ([]byte, error) {
+			return lorawan.EncryptFOpts(gen.LibKey(k), c.AFCntDown, c.Uplink, gen.Addr(c.DevAddr), c.FCnt, b)
+		}); v != "" {
+			return evid.Fail("EncryptFOpts(aFCntDown=%v uplink=%v addr=%08x fcnt=%#x): %s", c.AFCntDown, c.Uplink, c.DevAddr, c.FCnt, v)
+		}
 		return evid.Outcome{NonTrivial: len(c.Data) > 0 && c.FCnt >= 1<<16, Class: fmt.Sprintf("fopts/len%s", lb(len(c.Data)))}
 	}
 	out, err := lorawan.EncryptFRMPayload(gen.LibKey(k), c.Uplink, gen.Addr(c.DevAddr), c.FCnt, exact(c.Data))
@@ -97,7 +102,33 @@ func checkFn(c fnCase) evid.Outcome {
 			return evid.Fail("EncryptFRMPayload(uplink=%v fcnt=%#x, %d bytes) called right after (uplink=%v fcnt=%#x) differs from the specification keystream (err %v): a call depends on an earlier one", v.up, v.fcnt, len(c.Data), c.Uplink, c.FCnt, err)
 		}
 	}
+	if v := inArena(c.Data, want, func(b []byte) ([]byte, error) {
+		return lorawan.EncryptFRMPayload(gen.LibKey(k), c.Uplink, gen.Addr(c.DevAddr), c.FCnt, b)
+	}); v != "" {
+		return evid.Fail("EncryptFRMPayload(uplink=%v addr=%08x fcnt=%#x): %s", c.Uplink, c.DevAddr, c.FCnt, v)
+	}
 	return evid.Outcome{NonTrivial: len(c.Data) > 16, Class: fmt.Sprintf("frm/len%s", lb(len(c.Data)))}
+}
+
+// inArena: the payload sits inside a larger buffer (a received frame: the MIC follows; an arena: the next payload
+// follows). The call gets the sub-slice - with the spare capacity such a slice has - and has to transform exactly
+// those bytes: the result is the specification's, the neighbours before and behind are untouched.
+func inArena(data, want []byte, f func([]byte) ([]byte, error)) string {
+	arena := bytes.Repeat([]byte{0xc3}, 8+len(data)+24)
+	copy(arena[8:], data)
+	out, err := f(arena[8 : 8+len(data)])
+	if err != nil {
+		return fmt.Sprintf("%d bytes given as a sub-slice of a larger buffer: %v", len(data), err)
+	}
+	if !bytes.Equal(out, want) {
+		return fmt.Sprintf("%d bytes given as a sub-slice of a larger buffer give %x, specification gives %x", len(data), out, want)
+	}
+	for i, b := range arena {
+		if (i < 8 || i >= 8+len(data)) && b != 0xc3 {
+			return fmt.Sprintf("%d bytes given as a sub-slice of a larger buffer: the byte at offset %d relative to the payload (outside it) changed from c3 to %02x - the length is not preserved", len(data), i-8, b)
+		}
+	}
+	return ""
 }
 
 func lb(n int) string {
@@ -258,7 +289,14 @@ type contractCase struct {
 
 func genContract(t *rapid.T) contractCase {
 	k := gen.Key(t, "key")
-	c := contractCase{Kind: rapid.SampledFrom([]string{"nondata", "longfopts", "frm-without-fport"}).Draw(t, "kind"), Key: k[:], FPort: rapid.IntRange(-1, 255).Draw(t, "fport")}
+	c := contractCase{Kind: rapid.SampledFrom([]string{"nondata", "longfopts", "frm-without-fport", "unencodable-command"}).Draw(t, "kind"), Key: k[:], FPort: rapid.IntRange(-1, 255).Draw(t, "fport")}
+	if c.Kind == "unencodable-command" {
+		// FOpts[0] = number of valid commands (1..3), FOpts[1] = position of the bad one (0..n), FOpts[2] = which bad one
+		n := rapid.IntRange(1, 3).Draw(t, "n")
+		c.MType = rapid.SampledFrom([]byte{ref.MTUnconfDown, ref.MTConfDown}).Draw(t, "mtype")
+		c.FOpts = evid.Hex{byte(n), byte(rapid.IntRange(0, n).Draw(t, "pos")), byte(rapid.IntRange(0, 4).Draw(t, "bad"))}
+		return c
+	}
 	if c.Kind == "frm-without-fport" {
 		c.MType = gen.DataMType(t)
 		c.FOpts = gen.Bytes(t, "frm", rapid.IntRange(1, 40).Draw(t, "n")) // the field carries the FRMPayload bytes for this kind
@@ -296,6 +334,61 @@ func checkContract(c contractCase) evid.Outcome {
 			}
 		}
 		return evid.Outcome{NonTrivial: true, Class: "nondata"}
+	}
+	if c.Kind == "unencodable-command" {
+		if len(c.FOpts) != 3 || c.FOpts[0] < 1 || c.FOpts[0] > 3 || c.FOpts[1] > c.FOpts[0] || c.FOpts[2] > 4 {
+			return evid.Outcome{Skip: true}
+		}
+		bads := []lorawan.MACCommand{
+			{CID: lorawan.LinkADRReq, Payload: &lorawan.LinkADRReqPayload{DataRate: 1, TXPower: 16}},
+			{CID: lorawan.LinkADRReq, Payload: &lorawan.LinkADRReqPayload{DataRate: 16, TXPower: 1}},
+			{CID: lorawan.DutyCycleReq, Payload: &lorawan.DutyCycleReqPayload{MaxDCycle: 200}},
+			{CID: lorawan.RXTimingSetupReq, Payload: &lorawan.RXTimingSetupReqPayload{Delay: 16}},
+			{CID: lorawan.NewChannelReq, Payload: &lorawan.NewChannelReqPayload{ChIndex: 3, Freq: 868100050, MaxDR: 5}},
+		}
+		bad := bads[c.FOpts[2]]
+		if _, err := bad.MarshalBinary(); err == nil {
+			return evid.Outcome{Skip: true} // the encoder accepts it: not a case of this kind
+		}
+		goods := []lorawan.MACCommand{{CID: lorawan.DevStatusReq}, {CID: lorawan.RXTimingSetupReq, Payload: &lorawan.RXTimingSetupReqPayload{Delay: 3}}, {CID: lorawan.DutyCycleReq, Payload: &lorawan.DutyCycleReqPayload{MaxDCycle: 4}}}
+		build := func() []lorawan.Payload {
+			var l []lorawan.Payload
+			for i := 0; i <= int(c.FOpts[0]); i++ {
+				if i == int(c.FOpts[1]) {
+					b := bad
+					l = append(l, &b)
+				}
+				if i < int(c.FOpts[0]) {
+					g := goods[i]
+					l = append(l, &g)
+				}
+			}
+			return l
+		}
+		// in FOpts (1.1 FOpts encryption) and on port 0 (FRMPayload encryption): nothing that cannot be serialised can be transformed
+		for _, name := range []string{"EncryptFOpts", "DecryptFOpts", "EncryptFRMPayload"} {
+			m := &lorawan.MACPayload{FHDR: lorawan.FHDR{DevAddr: lorawan.DevAddr{1, 2, 3, 4}, FCnt: 5}}
+			p := lorawan.PHYPayload{MHDR: lorawan.MHDR{MType: lorawan.MType(c.MType), Major: lorawan.LoRaWANR1}, MACPayload: m}
+			var err error
+			switch name {
+			case "EncryptFOpts":
+				m.FHDR.FOpts = build()
+				err = p.EncryptFOpts(key)
+			case "DecryptFOpts":
+				m.FHDR.FOpts = build()
+				err = p.DecryptFOpts(key)
+			default:
+				var zero uint8
+				m.FPort, m.FRMPayload = &zero, build()
+				err = p.EncryptFRMPayload(key)
+			}
+			if err == nil {
+				fo, _ := gen.PayloadsToBytes(false, m.FHDR.FOpts)
+				fr, _ := gen.PayloadsToBytes(false, m.FRMPayload)
+				return evid.Fail("PHYPayload.%s on a downlink whose command list holds %d valid commands and, at position %d, the unencodable %v %+v reports success (FOpts afterwards %x, FRMPayload %x): a command list that cannot be serialised was not transformed as a whole", name, c.FOpts[0], c.FOpts[1], bad.CID, bad.Payload, fo, fr)
+			}
+		}
+		return evid.Outcome{NonTrivial: true, Class: fmt.Sprintf("unencodable-command/pos%d-of-%d", c.FOpts[1], c.FOpts[0])}
 	}
 	if c.Kind == "frm-without-fport" {
 		// a frame value with FRMPayload bytes but no FPort (not encodable): each method must return an error or apply the keystream
@@ -353,7 +446,7 @@ func TestProp(t *testing.T) {
 	defer r.Finish()
 
 	evid.Exhaustive(r, t, "func-all-lengths",
-		"EncryptFRMPayload for every length 0..255 and EncryptFOpts for every length 0..40, each x 16 (quick) / 256 (thorough) deterministic parameter sets (key, direction, DevAddr, FCnt incl. values >= 2^16, data pattern); oracle: keystream S_i = AES(K, A_i) from crypto/aes; length preserved; second application restores the input; FOpts > 15 bytes rejected. Non-trivial: more than 16 bytes (keystream block index >= 2) / FOpts with FCnt >= 2^16 / rejected length.",
+		"EncryptFRMPayload for every length 0..255 and EncryptFOpts for every length 0..40, each x 16 (quick) / 256 (thorough) deterministic parameter sets (key, direction, DevAddr, FCnt incl. values >= 2^16, data pattern); oracle: keystream S_i = AES(K, A_i) from crypto/aes; length preserved (also when the data is a sub-slice of a larger buffer: the bytes before and behind it stay untouched); second application restores the input; FOpts > 15 bytes rejected. Non-trivial: more than 16 bytes (keystream block index >= 2) / FOpts with FCnt >= 2^16 / rejected length.",
 		true,
 		func(emit func(fnCase)) {
 			sets := r.N(16, 256)
@@ -386,6 +479,6 @@ func TestProp(t *testing.T) {
 		120000, 3000000, genMethod, checkMethod)
 
 	evid.Rapid(r, t, "outcome-contract",
-		"rapid: frames on which no transform is defined - non-data MACPayload (join-request, join-accept, rejoin, proprietary), FOpts longer than 15 bytes, and FRMPayload bytes without an FPort; every Encrypt*/Decrypt* method must return an error or apply the specification transform, never nil with untransformed data. Every case is non-trivial.",
+		"rapid: frames on which no transform is defined - non-data MACPayload (join-request, join-accept, rejoin, proprietary), FOpts longer than 15 bytes, FRMPayload bytes without an FPort, and command lists (in FOpts and on port 0) that hold one unencodable command at a drawn position between 1..3 valid ones; every Encrypt*/Decrypt* method must return an error or apply the specification transform, never nil with untransformed data. Every case is non-trivial.",
 		4000, 200000, genContract, checkContract)
 }
